@@ -49,7 +49,7 @@ pub struct Inst {
     pub priors: Option<Vec<f64>>,
     /// Bernoulli binarisation threshold
     pub bin: Option<f64>,
-    pub queries: Vec<Vec<f64>>,
+    pub queries: std::rc::Rc<Vec<Vec<f64>>>,
 }
 
 impl Inst {
@@ -327,7 +327,7 @@ pub fn check(inst: &Inst, obs: &Obs, pred: &Pred) {
             mc::count("priors_observed_via_serde");
             let ok = rep.len() == k && (0..k).all(|i| tol.close(rep[i], prior[i], 1e-12)) && tol.close(rep.iter().sum::<f64>(), 1.0, 1e-12);
             if !ok {
-                mc::violation(format!("{}.class_priors:{}+{}", v, lc, pc), format!("{}: reported priors {:?} for classes {:?}, expected {:?} (sum {})", inst.brief(), rep, obs.classes, prior, rep.iter().sum::<f64>()));
+                mc::violation(format!("{}.class_priors:{}", v, pc), format!("{}: reported priors {:?} for classes {:?}, expected {:?} (sum {})", inst.brief(), rep, obs.classes, prior, rep.iter().sum::<f64>()));
             }
         }
         None => mc::count("priors_not_observable"),
@@ -394,10 +394,10 @@ pub fn check(inst: &Inst, obs: &Obs, pred: &Pred) {
                 mc::violation(key, format!("{}: feature_count[class {}][feature {}] = {}, the data give {}", inst.brief(), obs.classes[i], j, obs.feature_count[i][j], fc));
             }
             if let Some((i, j, want)) = bad_l {
-                mc::violation(format!("{}.feature_log_prob:{}+{}", v, lc, ac), format!("{}: feature_log_prob[class {}][feature {}] = {}, the smoothed relative frequency gives {}", inst.brief(), obs.classes[i], j, obs.flp[i][j], want));
+                mc::violation(format!("{}.feature_log_prob:{}", v, ac), format!("{}: feature_log_prob[class {}][feature {}] = {}, the smoothed relative frequency gives {}", inst.brief(), obs.classes[i], j, obs.flp[i][j], want));
             }
             if let Some((i, s)) = bad_s {
-                mc::violation(format!("{}.feature_log_prob:not-normalised+{}", v, ac), format!("{}: the feature probabilities of class {} sum to {}", inst.brief(), obs.classes[i], s));
+                mc::violation(format!("{}.feature_log_prob:not-normalised", v), format!("{}: the feature probabilities of class {} sum to {}", inst.brief(), obs.classes[i], s));
             }
         }
         V::C => {
@@ -406,7 +406,7 @@ pub fn check(inst: &Inst, obs: &Obs, pred: &Pred) {
             }
             let ncat: Vec<usize> = (0..p).map(|j| rf.n_categories(j)).collect();
             if obs.n_categories != ncat {
-                mc::violation(format!("{}.n_categories:{}", v, lc), format!("{}: n_categories() = {:?}, the data have {:?}", inst.brief(), obs.n_categories, ncat));
+                mc::violation(format!("{}.n_categories:any", v), format!("{}: n_categories() = {:?}, the data have {:?}", inst.brief(), obs.n_categories, ncat));
             }
             let shape_ok = obs.cat_count.len() == p && obs.cat_lp.len() == p && (0..p).all(|j| shape2(&obs.cat_count[j], k, ncat[j]) && shape2(&obs.cat_lp[j], k, ncat[j]));
             if !shape_ok {
@@ -439,10 +439,10 @@ pub fn check(inst: &Inst, obs: &Obs, pred: &Pred) {
                 mc::violation(format!("{}.category_count:{}", v, lc), format!("{}: category_count[feature {}][class {}][category {}] = {}, the data give {}", inst.brief(), j, obs.classes[i], c, obs.cat_count[j][i][c], cc));
             }
             if let Some((j, i, c, want)) = bad_l {
-                mc::violation(format!("{}.feature_log_prob:{}+{}", v, lc, ac), format!("{}: feature_log_prob[feature {}][class {}][category {}] = {}, the smoothed relative frequency gives {}", inst.brief(), j, obs.classes[i], c, obs.cat_lp[j][i][c], want));
+                mc::violation(format!("{}.feature_log_prob:{}", v, ac), format!("{}: feature_log_prob[feature {}][class {}][category {}] = {}, the smoothed relative frequency gives {}", inst.brief(), j, obs.classes[i], c, obs.cat_lp[j][i][c], want));
             }
             if let Some((j, i, s)) = bad_s {
-                mc::violation(format!("{}.feature_log_prob:not-normalised+{}", v, ac), format!("{}: the category probabilities of feature {} in class {} sum to {}", inst.brief(), j, obs.classes[i], s));
+                mc::violation(format!("{}.feature_log_prob:not-normalised", v), format!("{}: the category probabilities of feature {} in class {} sum to {}", inst.brief(), j, obs.classes[i], s));
             }
         }
     }
@@ -453,12 +453,14 @@ pub fn check(inst: &Inst, obs: &Obs, pred: &Pred) {
         mc::count("tolerance_used_over_10pct");
     }
 
-    // ---- clause: the predicted label is a MAP class
-    let mut pkey = format!("{}.predict:{}+{}", v, lc, pc);
-    if inst.v != V::G {
-        pkey.push('+');
-        pkey.push_str(ac);
+    // ---- clause: the predicted label is a MAP class of the scores computed "from those statistics".
+    // When a reported statistic is wrong the reference scores are not the scores of the reported
+    // statistics any more, so the prediction is not judged in that execution.
+    if mc::n_violations() > 0 {
+        mc::count("predict_not_judged_after_statistics_violation");
+        return;
     }
+    let mut pkey = format!("{}.predict:{}+{}", v, lc, pc);
     if inst.v == V::B {
         pkey.push('+');
         pkey.push_str(bc);
